@@ -106,8 +106,7 @@ structure St where
   pend : List Obs := []       -- rest of the running synchronous segment (strictly next)
   mayClose : Bool := false    -- a SESSION_STATUS close may follow the `tstop` just seen
   closeTag : Tag := .x
-  wloss : Bool := false       -- ghost: a connect() completed although the transport was already gone,
-                              --        or the connection was lost while the user's connect() was running
+  wloss : Bool := false       -- ghost: a connect() completed (CONNECTED reported) although the transport was already gone
   deriving Repr
 
 def init (kind : Kind) (auto : Bool) (ncb : Nat) : St := { kind, auto, ncb }
@@ -185,7 +184,10 @@ def act (s : St) (o : Obs) (fp : Bool) : Option St :=
       | none => none
     else none
   | .notify st =>
-    if fp then some (notifyEff s t st)
+    if fp then
+      -- CONNECTED is reported only from `connect()` right after `_tunnel_established()`
+      if st == .C && !(s.chan.isSome && s.hb.isSome) then none
+      else some (notifyEff { s with wloss := s.wloss || (st == .C && !s.tup) } t st)
     else if st == .D && inConn s t then
       -- connect() failed: DISCONNECTED, transport.stop(), raise
       some { notifyEff s t .D with pend := failTail t }
@@ -236,7 +238,7 @@ def act (s : St) (o : Obs) (fp : Bool) : Option St :=
       | .other => none
   | .estab n =>
     if !fp && inConn s t && s.resps.contains n then
-      some { s with chan := some n, wloss := s.wloss || !s.tup,
+      some { s with chan := some n,
                     pend := [⟨t, .newTask .heartbeat s.nextHb 0⟩, ⟨t, .notify .C⟩] ++
                       (if t == .c then [⟨.c, .ret .connectOk⟩]
                        else match s.rt with
@@ -269,7 +271,7 @@ def act (s : St) (o : Obs) (fp : Bool) : Option St :=
   | .lost =>
     if t == .x || t == .h || t == .s || t == .i then
       let s1 := if t == .i then { s with invseq := none } else s
-      some { s1 with pend := lostSeq s1 t, wloss := s1.wloss || s1.cRun }
+      some { s1 with pend := lostSeq s1 t }
     else none
   | .prep =>
     let s1 := { s with hb := none, invseq := none }
@@ -305,7 +307,7 @@ def act (s : St) (o : Obs) (fp : Bool) : Option St :=
     | .connectErr => if fp then some { s with cRun := false } else none
     | .disconnect =>
       -- (transport closed and no DisconnectResponse awaited any more: re-checked here, it is what `finally: transport.stop()` gives)
-      if fp && !s.tup && !s.dWait then some { s with dRun := false, udone := true, pend := [] } else none
+      if fp && s.dRun && !s.tup && !s.dWait then some { s with dRun := false, udone := true, pend := [] } else none
     | .send => if !fp && t == .s then some s else none
   | .rxCresp o =>
     if fp || t != .x || !s.tup then none
